@@ -7,6 +7,7 @@ import Driver.C06
 import Driver.C12
 import Driver.C13
 import Driver.C07
+import Driver.C18
 
 open Driver
 
@@ -43,6 +44,9 @@ def main (args : List String) : IO UInt32 := do
     return 0
   | ["c07"] =>
     forLines stdin fun l => stdout.putStrLn (c07Line (fields l))
+    return 0
+  | ["c18"] =>
+    forLines stdin fun l => stdout.putStrLn (c18Line (fields l))
     return 0
   | ["c13"] =>
     forLines stdin fun l => stdout.putStrLn (c13Line (fields l))
